@@ -101,17 +101,84 @@ def raw_fn(rows):
     return np.sum((rows - centre) ** 2, axis=1) + 0.1
 
 
+def case_target(case, rows):
+    """the toy target in the case's units: yscale * f(rows / xscale), f = log-distance ('log') or distance ('raw')"""
+    rows = np.asarray(rows, dtype=float) / case.get('xscale', 1.0)
+    base = raw_fn(rows) if case.get('tkind', 'log') == 'raw' else target_fn(rows)
+    return case.get('yscale', 1.0) * base
+
+
+def case_noise(case):
+    return 0.05 * case.get('yscale', 1.0)
+
+
 def make_gp(case, n_ev, seed):
-    """surrogate over case['names'] whose bounds dict is written in case['dict_order']"""
+    """surrogate over case['names'] whose bounds dict is written in case['dict_order']; the target is expressed in the
+    case's units (yscale, xscale), the first fit optionally with hyper-parameter optimisation (fit_opt)"""
     from elfi.methods.bo.gpy_regression import GPyRegression
     names, bounds = list(case['names']), case['bounds']
     rs = np.random.RandomState(seed)
-    gp = GPyRegression(names, bounds=user_dict(case), max_opt_iters=5)
+    gp = GPyRegression(names, bounds=user_dict(case), max_opt_iters=case.get('opt_iters', 5))
     if n_ev:
         X = np.column_stack([rs.uniform(lo, hi, n_ev) for lo, hi in bounds])
-        Y = target_fn(X) + 0.05 * rs.randn(n_ev)
-        gp.update(X, Y)
+        Y = case_target(case, X) + case_noise(case) * rs.randn(n_ev)
+        gp.update(X, Y, optimize=bool(case.get('fit_opt', False)))
     return gp
+
+
+def _f1(v):
+    return float(np.asarray(v, dtype=float).reshape(-1)[0])
+
+
+def fd_probe(gp, evaluate, x, j, width):
+    """central differences of evaluate (a function of the point) and of the surrogate's own mean / variance along
+    coordinate j, steps 1e-5 and 1e-6 of the box width, and the measured roughness of evaluate near the point
+    (largest |second difference| at spacings 1e-7, 2e-7 widths around x, x+h, x-h): a smooth function has none at
+    that spacing, what is measured is the rounding noise of the surrogate's outputs"""
+    dim = x.shape[1]
+    h = 1e-5 * width
+
+    def at(d):
+        e = np.zeros((1, dim))
+        e[0, j] = d
+        return x + e
+
+    def pm(d):
+        m, v = gp.predict(at(d), noiseless=True)
+        return _f1(m), _f1(v)
+    out = dict(h=h)
+    for hh, suffix in ((h, ''), (h / 10, '2')):
+        out['fd' + suffix] = (_f1(evaluate(at(hh))) - _f1(evaluate(at(-hh)))) / (2 * hh)
+        (m1, v1), (m0, v0) = pm(hh), pm(-hh)
+        out['sm' + suffix], out['sv' + suffix] = (m1 - m0) / (2 * hh), (v1 - v0) / (2 * hh)
+    dl, rough = 1e-7 * width, 0.0
+    for c in (h, -h, 0.0):
+        fc = _f1(evaluate(at(c)))
+        for k in (1, 2):
+            rough = max(rough, abs(_f1(evaluate(at(c - k * dl))) - 2 * fc + _f1(evaluate(at(c + k * dl)))))
+    out['rough'] = rough
+    return out
+
+
+def fd_verdict(g, gm, gv, beta, mean, var, pr):
+    """BoCase.fd_coord in binary64 (for the 'grad' cases, whose Coq record holds one coordinate only):
+    'ok' / 'bad' / 'abstain' (the surrogate's own outputs are not self-consistent for either step)"""
+    CT, ST, FT = 1e-4, 1e-3, 5e-4
+    gscale = abs(gm) + abs(0.5 * gv * math.sqrt(beta / var))
+    noise = 4 * pr['rough'] + 1e-14 * (abs(mean) + math.sqrt(beta * var))
+    verdict = 'abstain'
+    for hh, suffix in ((pr['h'], ''), (pr['h'] / 10, '2')):
+        sm, sv, fd = pr['sm' + suffix], pr['sv' + suffix], pr['fd' + suffix]
+        if not (abs(gm - sm) <= CT * (abs(gm) + abs(sm)) and abs(gv - sv) <= CT * (abs(gv) + abs(sv)) and abs(hh * gv) <= ST * var):
+            continue
+        if abs(g - fd) <= FT * (abs(g) + abs(fd)) + FT * gscale + noise / hh:
+            return 'ok'
+        verdict = 'bad'
+    return verdict
+
+
+def var_decade(var):
+    return 'predictive_var=1e%+03d' % int(math.floor(math.log10(var))) if var > 0 else 'predictive_var<=0'
 
 
 class Spy:
@@ -212,16 +279,28 @@ class C11(PropCheck):
             'LCBSC (+ ONE MaxVar) object over ONE surrogate: queries (value / gradient / both, either order) at 1-3 points (box corners '
             'included) separated by surrogate updates (1-3 rows, anywhere or next to the query point, with/without hyper-parameter '
             'optimisation), optimize() and acquire(n, t) calls, every query compared with the translated formulas on the surrogate\'s '
-            'current outputs, with a fresh object and with central differences; non-trivial = acquisition with an optimiser end point or '
+            'current outputs, with a fresh object and with central differences; (c)+(d) at every scale: three quarters of the gradient and '
+            'history surrogates are fitted to the toy target in other units -- target values x 1e-4 ... 1e4 (log-distance or distance), '
+            'parameter boxes x 1e-3 ... 1e3, first fit with or without hyper-parameter optimisation (5 or 30 iterations), 4-15 evidence '
+            'rows -- so that the noiseless predictive variance at the query points spans 1e-16 ... 1e6 (histogram predictive_var=1e..); '
+            'value and gradient must equal the translated formulas at 1e-9 of |mean| + sqrt(beta var) resp. |grad_mean| + |1/2 grad_var '
+            'sqrt(beta/var)| per coordinate, with NO absolute term, in agree and in ok; central differences with steps 1e-5 / 1e-6 of the box '
+            'width are a second opinion wherever the surrogate is self-consistent (fd_second_opinion=ok/abstain); '
+            'non-trivial = acquisition with an optimiser end point or '
             'noise draw that needed the clip/truncation or n > 1, a BO run with >= 1 acquisition and >= 1 "not ready" answer, a history '
             'with a query repeating the previous query\'s point after a surrogate change; distinct by case')
     trusted = ('translator harness/translate_c11.py (Python ast -> Gallina, fail-closed) and the reading "numpy element-wise op on one row/coordinate = scalar op on reals"',
                'oracles, modelled not verified: scipy.optimize.minimize (arbitrary end points), scipy.stats.truncnorm/uniform (range hypothesis stated in Proofs/C11_Acq.v), numpy sqrt, GPy (surrogate mean/variance/gradients), the MCMC kernels (C09)',
                'harness shim paramz.Param.__float__ for 1-element parameters (numpy 2), as in harness/c10.py; no repo change',
                'the scripted client stands for any ClientBase that answers is_ready arbitrarily and computes submitted nets faithfully',
-               'finite-difference clauses (LCBSC, MaxVar gradients): central differences h=1e-5, tolerance 2e-4 relative + 1e-6 absolute '
-               '(histories: in Coq, BoCase.fd_match: per coordinate, for h=1e-5 or h=1e-6, |g-fd| <= 2e-4(|g|+|fd|) + 1e-6 + 2e-5(|grad_mean| + '
-               '|1/2 grad_var sqrt(beta/var)|) + 1e-8 sqrt(beta/var); observed worst error/tolerance ratio 0.011 over 50000 comparisons)',
+               'finite-difference clauses are a second opinion only (the exact clause is: returned gradient = translated gradient formula on the '
+               'surrogate\'s outputs, relative 1e-9, and that formula is proved to be the derivative of the translated value formula): LCBSC in '
+               'Coq, BoCase.fd_coord (binary64 replica harness/c11.py fd_verdict for the one-coordinate grad cases): per coordinate, steps h = 1e-5 '
+               'and 1e-6 of the box width; a step has an opinion when GPy\'s own mean/variance gradients equal the central differences of its '
+               'mean/variance at 1e-4 relative and h |grad_var| <= 1e-3 var; then |g - fd| <= 5e-4 (|g| + |fd| + |grad_mean| + |1/2 grad_var '
+               'sqrt(beta/var)|) + (4 x measured roughness of evaluate + 1e-14 (|mean| + sqrt(beta var))) / h; no opinion for either step = pass '
+               '(about 13 % of the coordinates: ill-conditioned kernel matrices, query points on an evidence point); observed worst error/tolerance '
+               'ratio 0.09 over 9600 comparisons; MaxVar: central differences h=1e-5, 2e-3 relative + 1e-6 |value|, at the unit scale only',
                'histories: the surrogate\'s "current" mean/variance/gradients are read directly from GPyRegression.predict / predictive_gradients '
                '(GPy itself is an oracle); "fresh object" = a new LCBSC / MaxVar (same eps) constructed at the moment of the query')
 
@@ -279,14 +358,32 @@ class C11(PropCheck):
             vals[r.randrange(dim)] = 0.0
         return k, vals
 
+    YSCALES = [1e-4, 1e-3, 1e-2, 1e-1, 1.0, 1.0, 1e1, 1e2, 1e4]
+    XSCALES = [1e-3, 1e-1, 1.0, 1.0, 1e1, 1e3]
+
+    def _scales(self, r, bounds, legacy=False):
+        """units of the target and of the parameters: the surrogate's predictive variance goes with yscale**2
+        (or, without hyper-parameter optimisation, with GPy's unit default kernel variance), its gradients with 1/xscale"""
+        if legacy:
+            sc = dict(yscale=1.0, xscale=1.0, tkind='log', fit_opt=False, opt_iters=5)
+        else:
+            sc = dict(yscale=r.choice(self.YSCALES), xscale=r.choice(self.XSCALES), tkind=r.choice(['log', 'raw', 'raw']),
+                      fit_opt=r.random() < 0.6, opt_iters=r.choice([5, 5, 30]))
+        self.bump('yscale=%g' % sc['yscale'])
+        self.bump('xscale=%g' % sc['xscale'])
+        self.bump('target=%s' % sc['tkind'])
+        self.bump('first_fit_optimised=%s' % sc['fit_opt'])
+        sc['bounds'] = [[lo * sc['xscale'], hi * sc['xscale']] for lo, hi in bounds]
+        return sc
+
     def generate(self):
         r = self.rng
         quick = self.tier == 'quick'
         n_acq = 50 if quick else 1000
         n_min = 14 if quick else 250
         n_bo = 60 if quick else 1200
-        n_grad = 10 if quick else 200
-        n_hist = 16 if quick else 300
+        n_grad = 16 if quick else 300
+        n_hist = 20 if quick else 360
         n_bad = 6 if quick else 30
         classes = ['lcbsc', 'lcbsc', 'lcbsc', 'maxvar', 'randmaxvar_metropolis', 'randmaxvar_metropolis', 'expintvar', 'uniform',
                    'lcbsc_prior', 'maxvar']   # RandMaxVar(sampler='nuts') dies under numpy 2 (float(1-element array) in mcmc._build_tree_nuts)
@@ -351,9 +448,10 @@ class C11(PropCheck):
         for i in range(n_grad):
             dim = r.choice([1, 2])
             names = self._names(r, dim)
-            case = dict(kind='grad', dim=dim, names=names, dict_order=self._order(r, names), bounds=self._box(r, dim),
-                        n_ev=r.choice([4, 7, 10]), seed=r.randrange(2 ** 31),
-                        t=r.choice([0, 1, 4, 20]), u=[r.random() for _ in range(dim)], exploration_rate=r.choice([10, 2, 100]))
+            case = dict(kind='grad', dim=dim, names=names, dict_order=self._order(r, names),
+                        n_ev=r.choice([4, 7, 10, 15]), seed=r.randrange(2 ** 31),
+                        t=r.choice([0, 1, 4, 20, 50]), u=[r.random() for _ in range(dim)], exploration_rate=r.choice([10, 2, 100]))
+            case.update(self._scales(r, self._box(r, dim), legacy=(i % 4 == 0)))
             self.bump('grad')
             yield case
         # ---- histories of calls on ONE acquisition object over ONE surrogate that changes in between
@@ -381,10 +479,11 @@ class C11(PropCheck):
                     ops.append(dict(op='acquire', n=r.choice([1, 2, 3]), t=r.choice([0, 2, 5])))
             ops.append(dict(op='q', p=last, t=r.choice([0, 1, 4]), what=r.choice(['val', 'grad', 'valgrad', 'gradval'])))
             nk, nz = self._noise(r, dim)
-            case = dict(kind='hist', dim=dim, names=names, dict_order=self._order(r, names), bounds=self._box(r, dim),
-                        n_ev=r.choice([4, 7, 10]), seed=r.randrange(2 ** 31), exploration_rate=r.choice([10, 2, 100]),
+            case = dict(kind='hist', dim=dim, names=names, dict_order=self._order(r, names),
+                        n_ev=r.choice([4, 7, 10, 15]), seed=r.randrange(2 ** 31), exploration_rate=r.choice([10, 2, 100]),
                         noise=nz, noise_order=self._order(r, names, 'noise_dict_order') if isinstance(nz, list) else None,
                         pts=pts, ops=ops)
+            case.update(self._scales(r, self._box(r, dim), legacy=(i % 4 == 0)))
             self.bump('hist')
             self.bump('dim=%d' % dim)
             yield case
@@ -625,26 +724,35 @@ class C11(PropCheck):
         gm, gv = gp.predictive_gradients(x)
         val = float(np.asarray(lc.evaluate(x, t)).reshape(-1)[0])
         grad = np.asarray(lc.evaluate_gradient(x, t), dtype=float).reshape(-1)
-        h = 1e-5
-
-        def fd(f):
-            g = []
-            for j in range(dim):
-                e = np.zeros((1, dim))
-                e[0, j] = h
-                g.append((float(np.asarray(f(x + e)).reshape(-1)[0]) - float(np.asarray(f(x - e)).reshape(-1)[0])) / (2 * h))
-            return g
-        fd_lcb = fd(lambda z: lc.evaluate(z, t))
-        prior = self._prior(dict(prior_shift=0.3, prior_scale=1.0), bounds)
-        mv = A.MaxVar(gp, prior, quantile_eps=0.3, seed=1)
-        mv.eps = float(np.percentile(gp.Y, 30))
-        mv_grad = np.asarray(mv.evaluate_gradient(x), dtype=float).reshape(-1)
-        fd_mv = fd(lambda z: mv.evaluate(z))
         mean, var = float(np.asarray(mean).reshape(-1)[0]), float(np.asarray(var).reshape(-1)[0])
-        return dict(beta=beta, mean=mean, var=var, gm=np.asarray(gm, dtype=float).reshape(-1).tolist(),
-                    gv=np.asarray(gv, dtype=float).reshape(-1).tolist(), val=val, grad=grad.tolist(), fd_lcb=fd_lcb,
-                    mv_grad=mv_grad.tolist(), fd_mv=fd_mv, mv_val=float(np.asarray(mv.evaluate(x)).reshape(-1)[0]),
-                    sqrt=[[beta * var, float(np.sqrt(beta * var))], [beta / var, float(np.sqrt(beta / var))]])
+        gm, gv = np.asarray(gm, dtype=float).reshape(-1), np.asarray(gv, dtype=float).reshape(-1)
+        self.bump(var_decade(var))
+        # second opinion: central differences, steps relative to the box, see fd_verdict
+        probes = [fd_probe(gp, lambda z: lc.evaluate(z, t), x, j, bounds[j][1] - bounds[j][0]) for j in range(dim)]
+        verdicts = [fd_verdict(grad[j], gm[j], gv[j], beta, mean, var, probes[j]) if var > 0 and beta > 0 else 'abstain'
+                    for j in range(dim)]
+        for v in verdicts:
+            self.bump('fd_second_opinion=' + v)
+        out = dict(beta=beta, mean=mean, var=var, gm=gm.tolist(), gv=gv.tolist(), val=val, grad=grad.tolist(),
+                   fd_lcb=[p_['fd'] for p_ in probes], fd_probes=probes, fd_verdicts=verdicts,
+                   sqrt=[[beta * var, float(np.sqrt(beta * var))], [beta / var, float(np.sqrt(beta / var))]])
+        if case.get('yscale', 1.0) == 1.0 and case.get('xscale', 1.0) == 1.0:
+            # MaxVar: sampled at the unit scale only (its tolerance is not scale-free)
+            h = 1e-5
+
+            def fd(f):
+                g = []
+                for j in range(dim):
+                    e = np.zeros((1, dim))
+                    e[0, j] = h
+                    g.append((float(np.asarray(f(x + e)).reshape(-1)[0]) - float(np.asarray(f(x - e)).reshape(-1)[0])) / (2 * h))
+                return g
+            prior = self._prior(dict(prior_shift=0.3, prior_scale=1.0), bounds)
+            mv = A.MaxVar(gp, prior, quantile_eps=0.3, seed=1)
+            mv.eps = float(np.percentile(gp.Y, 30))
+            out.update(mv_grad=np.asarray(mv.evaluate_gradient(x), dtype=float).reshape(-1).tolist(), fd_mv=fd(lambda z: mv.evaluate(z)),
+                       mv_val=float(np.asarray(mv.evaluate(x)).reshape(-1)[0]))
+        return out
 
     def _run_hist(self, case):
         """ONE LCBSC (and ONE MaxVar) object over ONE surrogate; between the queries the surrogate gets new evidence,
@@ -659,7 +767,6 @@ class C11(PropCheck):
         mv = A.MaxVar(gp, prior, quantile_eps=0.3, seed=1)
         mv.eps = float(np.percentile(gp.Y, 30))
         pts = [np.array([[lo + u * (hi - lo) for (lo, hi), u in zip(bounds, p)]]) for p in case['pts']]
-        h = 1e-5
         steps, acqs = [], []
 
         def f1(v):
@@ -677,7 +784,7 @@ class C11(PropCheck):
                     w = np.array([hi - lo for lo, hi in bounds])
                     X = pts[op['near']] + 0.05 * w * rs.randn(k, dim)
                     X = np.column_stack([np.clip(X[:, j], *bounds[j]) for j in range(dim)])
-                Y = target_fn(X) + 0.05 * rs.randn(k)
+                Y = case_target(case, X) + case_noise(case) * rs.randn(k)
                 gp.update(X, Y, optimize=op['optimize'])
             elif op['op'] == 'optimize':
                 gp.optimize()
@@ -701,17 +808,17 @@ class C11(PropCheck):
                 fresh = A.LCBSC(gp, exploration_rate=er, seed=1)
                 fval = f1(fresh.evaluate(x.copy(), t))
                 fgrad = vec(fresh.evaluate_gradient(x.copy(), t))
-                fd, fd2 = [], []
-                for hh, dst in ((h, fd), (h / 10, fd2)):
+                self.bump(var_decade(var))
+                probes = [fd_probe(gp, lambda z: A.LCBSC(gp, exploration_rate=er, seed=1).evaluate(z, t), x, j,
+                                   bounds[j][1] - bounds[j][0]) for j in range(dim)]
+                fd, fd2 = [p_['fd'] for p_ in probes], [p_['fd2'] for p_ in probes]
+                if var > 0 and beta > 0:
                     for j in range(dim):
-                        e = np.zeros((1, dim))
-                        e[0, j] = hh
-                        dst.append((f1(A.LCBSC(gp, exploration_rate=er, seed=1).evaluate(x + e, t))
-                                    - f1(A.LCBSC(gp, exploration_rate=er, seed=1).evaluate(x - e, t))) / (2 * hh))
+                        self.bump('fd_second_opinion=' + fd_verdict(fgrad[j], vec(gm)[j], vec(gv)[j], beta, mean, var, probes[j]))
                 mfresh = A.MaxVar(gp, prior, quantile_eps=0.3, seed=1)
                 mfresh.eps = mv.eps
                 steps.append(dict(p=op['p'], t=t, beta=beta, mean=mean, var=var, gm=vec(gm), gv=vec(gv), val=val, grad=grad,
-                                  fval=fval, fgrad=fgrad, fd=fd, fd2=fd2, n_evidence=int(gp.n_evidence),
+                                  fval=fval, fgrad=fgrad, fd=fd, fd2=fd2, probes=probes, n_evidence=int(gp.n_evidence),
                                   sqrt=[[beta * var, float(np.sqrt(beta * var))], [beta / var, float(np.sqrt(beta / var))]],
                                   mval=mval, mgrad=mgrad, mfval=f1(mfresh.evaluate(x.copy())), mfgrad=vec(mfresh.evaluate_gradient(x.copy()))))
         return dict(steps=steps, acqs=acqs, mbounds=[[float(b[0]), float(b[1])] for b in gp.bounds])
@@ -757,8 +864,9 @@ class C11(PropCheck):
                 break
         elif k == 'hist':
             def same(a, b):
+                # the same computation on the same surrogate: relative 1e-9, no absolute term (any scale of the target)
                 a, b = np.asarray(a, dtype=float).reshape(-1), np.asarray(b, dtype=float).reshape(-1)
-                return a.shape == b.shape and bool(np.all(np.abs(a - b) <= 1e-9 * (1 + np.abs(b))))
+                return a.shape == b.shape and bool(np.all((np.abs(a - b) <= 1e-9 * np.maximum(np.abs(a), np.abs(b))) | (np.isnan(a) & np.isnan(b))))
             for i, st in enumerate(out['steps']):
                 if (st['val'] is not None and not same(st['val'], st['fval'])) or (st['grad'] is not None and not same(st['grad'], st['fgrad'])):
                     f.append(('lcbsc_history_independent', 'query %d (point %d, %d evidence rows): the LCBSC object that was queried before the '
@@ -803,13 +911,14 @@ class C11(PropCheck):
             if out['gp_n'] != len(out['X']):
                 f.append(('n_evidence_property', 'target_model.n_evidence differs from the number of rows of X'))
         elif k == 'grad':
-            def close(a, b):
-                return abs(a - b) <= 2e-4 * max(abs(a), abs(b)) + 1e-6
-            if not all(close(a, b) for a, b in zip(out['grad'], out['fd_lcb'])):
-                f.append(('lcbsc_gradient_fd', 'LCBSC.evaluate_gradient differs from central finite differences of LCBSC.evaluate'))
-            scale = max(1e-300, abs(out['mv_val']))
-            if not all(abs(a - b) <= 2e-3 * max(abs(a), abs(b)) + 1e-6 * scale + 1e-12 for a, b in zip(out['mv_grad'], out['fd_mv'])):
-                f.append(('maxvar_gradient_fd', 'MaxVar.evaluate_gradient differs from central finite differences of MaxVar.evaluate'))
+            if 'bad' in out['fd_verdicts']:
+                f.append(('lcbsc_gradient_fd', 'LCBSC.evaluate_gradient differs from central finite differences of LCBSC.evaluate at a point '
+                          'where the surrogate\'s own gradients match the differences of its mean and variance (see impl_output.fd_probes, '
+                          'fd_verdicts; rule: BoCase.fd_coord)'))
+            if 'mv_val' in out:
+                scale = max(1e-300, abs(out['mv_val']))
+                if not all(abs(a - b) <= 2e-3 * max(abs(a), abs(b)) + 1e-6 * scale + 1e-12 for a, b in zip(out['mv_grad'], out['fd_mv'])):
+                    f.append(('maxvar_gradient_fd', 'MaxVar.evaluate_gradient differs from central finite differences of MaxVar.evaluate'))
         elif k == 'bad':
             if not out['refused']:
                 f.append(('malformed_refused', 'malformed configuration %s was accepted' % case['what']))
@@ -915,10 +1024,12 @@ class C11(PropCheck):
             steps = []
             for st in out['steps']:
                 steps.append('{| h_beta := %s; h_mean := %s; h_var := %s; h_gmean := %s; h_gvar := %s; h_sqrt := %s; h_val := %s; '
-                             'h_grad := %s; h_fval := %s; h_fgrad := %s; h_fd := %s; h_fd2 := %s |}'
+                             'h_grad := %s; h_fval := %s; h_fgrad := %s; h_fd := %s; h_fd2 := %s; h_aux := %s |}'
                              % (cq(st['beta']), cq(st['mean']), cq(st['var']), crow(st['gm']), crow(st['gv']),
                                 clist(['(%s, %s)' % (cq(a), cq(b)) for a, b in st['sqrt']]),
-                                copt(st['val'], cq), copt(st['grad'], crow), cq(st['fval']), crow(st['fgrad']), crow(st['fd']), crow(st['fd2'])))
+                                copt(st['val'], cq), copt(st['grad'], crow), cq(st['fval']), crow(st['fgrad']), crow(st['fd']), crow(st['fd2']),
+                                clist(['{| x_h := %s; x_rough := %s; x_sm := %s; x_sv := %s; x_sm2 := %s; x_sv2 := %s |}'
+                                       % tuple(cq(float(p_[k_])) for k_ in ('h', 'rough', 'sm', 'sv', 'sm2', 'sv2')) for p_ in st['probes']])))
             return ('(CHist {| hs_names := %s; hs_dict := %s; hs_mbounds := %s; hs_steps := %s; hs_acq := %s |})'
                     % (cnames(case['names']), cdict(case), cbox(out['mbounds']), clist(steps),
                        clist(['(%s, %s)' % (cnat(a['n']), crows(a['out'])) for a in out['acqs']])))
